@@ -33,6 +33,16 @@ package retry
 // ---- accounting -----------------------------------------------------------------------------------
 
 //@ spec func okB(b *Backoffer) bool { return 0 <= b.excludedSleep && b.excludedSleep <= b.totalSleep }
+
+// validB: the data invariant of a Backoffer (all over unexported fields, so only this package can break it; every
+// constructor establishes it and every method below that writes these fields re-establishes it):
+// counters consistent, the two per-kind maps are distinct objects and not the package's isSleepExcluded map, and every
+// recorded kind carries the error it reports.
+//@ spec func validB(b *Backoffer) bool {
+//@   return okB(b) && b.backoffSleepMS != isSleepExcluded && b.backoffTimes != isSleepExcluded && (b.backoffSleepMS == nil || b.backoffSleepMS != b.backoffTimes) &&
+//@          (forall i int :: 0 <= i && i < len(b.configs) ==> b.configs[i] != nil && b.configs[i].err != nil) }
+// validCfg: a back-off kind carries the error it reports (true for every kind defined by this package).
+//@ spec func validCfg(c *Config) bool { return c != nil && c.err != nil }
 //@ spec func excluded(name string) bool { return inDom(isSleepExcluded, name) }
 
 //@ func (b *Backoffer) CheckKilled
@@ -47,10 +57,9 @@ package retry
 // counter of its kind; noop: a no-op back-offer passes the error through untouched.
 //@ func (b *Backoffer) BackoffWithCfgAndMaxSleep
 //@   prop C20
-//@   requires okB(b) && cfg != nil && err != nil && cfg.err != nil
-//@   requires maps: b.backoffSleepMS != isSleepExcluded && b.backoffTimes != isSleepExcluded && (b.backoffSleepMS == nil || b.backoffSleepMS != b.backoffTimes)
-//@   requires forall i int :: 0 <= i && i < len(b.configs) ==> b.configs[i] != nil && b.configs[i].err != nil
-//@   ensures inv: okB(b)
+//@   typeinv validB(b) && validCfg(cfg)
+//@   requires err != nil
+//@   ensures inv: validB(b)
 //@   ensures budget: result == nil ==> !(old(b.maxSleep) > 0 && old(b.totalSleep) - old(b.excludedSleep) >= old(b.maxSleep))
 //@   ensures exbudget: result == nil && excluded(cfg.name) ==> !(old(b.maxSleep) > 0 && old(b.excludedSleep) >= isSleepExcluded[cfg.name] && old(b.excludedSleep) >= old(b.maxSleep))
 //@   ensures exhausted: old(!b.noop) && old(b.maxSleep) > 0 && old(b.totalSleep) - old(b.excludedSleep) >= old(b.maxSleep) ==> result != nil && b.totalSleep == old(b.totalSleep) && b.excludedSleep == old(b.excludedSleep)
@@ -59,14 +68,13 @@ package retry
 //@   ensures step_kind: result == nil ==> b.backoffSleepMS[cfg.name] == old(b.backoffSleepMS[cfg.name]) + (b.totalSleep - old(b.totalSleep)) && b.backoffTimes[cfg.name] == old(b.backoffTimes[cfg.name]) + 1
 //@   ensures noop: old(b.noop) ==> b.totalSleep == old(b.totalSleep) && b.excludedSleep == old(b.excludedSleep)
 //@   ensures maxkept: b.maxSleep == old(b.maxSleep)
-//@   ensures configs: forall i int :: 0 <= i && i < len(b.configs) ==> b.configs[i] != nil && b.configs[i].err != nil
 
 // longestSleepCfg: the kind (among those not excluded from the budget) that has slept longest so far, provided it is one
 // of the kinds recorded in b.configs.
 //@ func (b *Backoffer) longestSleepCfg
 //@   prop C20
 //@   modifies nothing
-//@   requires forall i int :: 0 <= i && i < len(b.configs) ==> b.configs[i] != nil
+//@   typeinv forall i int :: 0 <= i && i < len(b.configs) ==> b.configs[i] != nil
 //@   loop 2 invariant idx: -1 <= rangeindex && rangeindex < len(b.configs)
 //@   loop 1 invariant best: maxSleep >= 0 && ((candidate == "" && maxSleep == 0) || (seen(candidate) && !excluded(candidate) && b.backoffSleepMS[candidate] == maxSleep && maxSleep > 0))
 //@   loop 1 invariant all: forall n string :: seen(n) && !excluded(n) ==> b.backoffSleepMS[n] <= maxSleep
@@ -78,28 +86,30 @@ package retry
 
 //@ func (b *Backoffer) Reset
 //@   prop C20
+//@   typeinv validB(b)
+//@   ensures valid: validB(b)
 //@   ensures b.totalSleep == 0 && b.excludedSleep == 0 && b.fn == nil && b.maxSleep == old(b.maxSleep)
 
 //@ func (b *Backoffer) ResetMaxSleep
 //@   prop C20
+//@   typeinv validB(b)
+//@   ensures valid: validB(b)
 //@   ensures b.totalSleep == 0 && b.excludedSleep == 0
 
 // The two wrappers add nothing to the accounting contract.
 //@ func (b *Backoffer) Backoff
 //@   prop C20
-//@   requires okB(b) && cfg != nil && err != nil && cfg.err != nil
-//@   requires maps: b.backoffSleepMS != isSleepExcluded && b.backoffTimes != isSleepExcluded && (b.backoffSleepMS == nil || b.backoffSleepMS != b.backoffTimes)
-//@   requires forall i int :: 0 <= i && i < len(b.configs) ==> b.configs[i] != nil && b.configs[i].err != nil
-//@   ensures inv: okB(b)
+//@   typeinv validB(b) && validCfg(cfg)
+//@   requires err != nil
+//@   ensures inv: validB(b)
 //@   ensures budget: result == nil ==> !(old(b.maxSleep) > 0 && old(b.totalSleep) - old(b.excludedSleep) >= old(b.maxSleep))
 //@   ensures step_range: result == nil ==> 0 <= b.totalSleep - old(b.totalSleep)
 
 //@ func (b *Backoffer) BackoffWithMaxSleepTxnLockFast
 //@   prop C20
-//@   requires okB(b) && err != nil && BoTxnLockFast != nil && BoTxnLockFast.err != nil
-//@   requires maps: b.backoffSleepMS != isSleepExcluded && b.backoffTimes != isSleepExcluded && (b.backoffSleepMS == nil || b.backoffSleepMS != b.backoffTimes)
-//@   requires forall i int :: 0 <= i && i < len(b.configs) ==> b.configs[i] != nil && b.configs[i].err != nil
-//@   ensures inv: okB(b)
+//@   typeinv validB(b) && validCfg(BoTxnLockFast)
+//@   requires err != nil
+//@   ensures inv: validB(b)
 //@   ensures budget: result == nil ==> !(old(b.maxSleep) > 0 && old(b.totalSleep) - old(b.excludedSleep) >= old(b.maxSleep))
 //@   ensures percall: result == nil ==> 0 <= b.totalSleep - old(b.totalSleep) && (maxSleepMs >= 0 ==> b.totalSleep - old(b.totalSleep) <= maxSleepMs)
 
@@ -111,13 +121,15 @@ package retry
 //@   loop 1 invariant values: forall k string :: inDom(result, k) ==> result[k] == srcMap[k]
 //@   loop 1 invariant fresh: result != nil && result != srcMap
 //@   loop 1 invariant frame: forall k string :: srcMap[k] == old(srcMap[k]) && inDom(srcMap, k) == old(inDom(srcMap, k))
-//@   ensures fresh: result != nil && result != srcMap
+//@   ensures fresh: result != nil && fresh(result)
 //@   ensures same: forall k string :: inDom(result, k) == inDom(srcMap, k) && result[k] == srcMap[k]
 //@   ensures frame: forall k string :: srcMap[k] == old(srcMap[k])
 
 // A clone and a fork start from the parent's accounting (every counter and both per-kind maps, pointwise) and own their maps.
 //@ func (b *Backoffer) Clone
 //@   prop C20
+//@   typeinv validB(b)
+//@   ensures valid: validB(result) && validB(b)
 //@   ensures counters: result != nil && result != b && result.totalSleep == b.totalSleep && result.excludedSleep == b.excludedSleep && result.maxSleep == b.maxSleep && result.errorsNum == b.errorsNum && result.parent == b.parent
 //@   ensures maps: forall k string :: result.backoffSleepMS[k] == b.backoffSleepMS[k] && result.backoffTimes[k] == b.backoffTimes[k]
 //@   ensures own: result.backoffSleepMS != b.backoffSleepMS && result.backoffTimes != b.backoffTimes && result.backoffSleepMS != nil && result.backoffTimes != nil
@@ -125,6 +137,8 @@ package retry
 
 //@ func (b *Backoffer) Fork
 //@   prop C20
+//@   typeinv validB(b)
+//@   ensures valid: validB(result0) && validB(b)
 //@   ensures counters: result0 != nil && result0 != b && result0.totalSleep == b.totalSleep && result0.excludedSleep == b.excludedSleep && result0.maxSleep == b.maxSleep && result0.errorsNum == b.errorsNum && result0.parent == b
 //@   ensures maps: forall k string :: result0.backoffSleepMS[k] == b.backoffSleepMS[k] && result0.backoffTimes[k] == b.backoffTimes[k]
 //@   ensures own: result0.backoffSleepMS != b.backoffSleepMS && result0.backoffTimes != b.backoffTimes
@@ -136,7 +150,19 @@ package retry
 //@   prop C20
 //@   loop 1 peel 1
 //@   requires b != nil
+//@   typeinv validB(b) && (forked != nil ==> validB(forked))
+//@   ensures valid: validB(b)
 //@   ensures merged: forked != nil && old(forked.parent) == b && forked != b ==> b.totalSleep == old(forked.totalSleep) && b.excludedSleep == old(forked.excludedSleep) &&
 //@       b.errorsNum == old(forked.errorsNum) && b.backoffSleepMS == old(forked.backoffSleepMS) && b.backoffTimes == old(forked.backoffTimes)
 //@   ensures nilfork: forked == nil ==> b.totalSleep == old(b.totalSleep) && b.excludedSleep == old(b.excludedSleep) && b.backoffSleepMS == old(b.backoffSleepMS)
 //@   ensures forkkept: forked != nil && forked != b ==> forked.totalSleep == old(forked.totalSleep) && forked.excludedSleep == old(forked.excludedSleep)
+
+// ---- the data invariant is established by the constructors and kept by the remaining writers -----------------------
+
+//@ func NewBackoffer
+//@   prop C20
+//@   ensures valid: result != nil && validB(result) && result.totalSleep == 0 && result.maxSleep == maxSleep
+
+//@ func NewNoopBackoff
+//@   prop C20
+//@   ensures valid: result != nil && validB(result) && result.noop
